@@ -1030,9 +1030,10 @@ class Evaluator:
                 r = (a[1] is b[1]) if isinstance(b[1], (bool, type(None))) else (a[1] == b[1])
                 return r if op == 'is' else not r
             if is_c(a) and is_c(b) and op in ('==', '!=', '<', '<=', '>', '>='):
+                import operator as _op
                 try:
-                    return {'==': a[1] == b[1], '!=': a[1] != b[1], '<': a[1] < b[1], '<=': a[1] <= b[1],
-                            '>': a[1] > b[1], '>=': a[1] >= b[1]}[op]
+                    # only the requested operator is applied: `0.25 == 'zc'` is False although `0.25 < 'zc'` is a TypeError
+                    return bool({'==': _op.eq, '!=': _op.ne, '<': _op.lt, '<=': _op.le, '>': _op.gt, '>=': _op.ge}[op](a[1], b[1]))
                 except TypeError:
                     return None
             if op in ('in', 'notin') and is_c(a) and b[0] in ('list', 'tuple', 'set') \
@@ -1422,6 +1423,22 @@ class Evaluator:
                 return [((callee.dotted.split('.')[-1], pos[0][1]), st, 'ok')]
             if callee.dotted == 'builtins.len' and len(pos) == 1 and not kws and pos[0][0] in ('list', 'tuple', 'dict'):
                 return [(C(len(pos[0][1])), st, 'ok')]
+            if callee.dotted == 'builtins.isinstance' and len(pos) == 2 and not kws and is_c(pos[0]):
+                # isinstance of a literal (a parameter fixed by the evaluation context) against builtin types
+                BT = {'builtins.int': int, 'builtins.float': float, 'builtins.str': str, 'builtins.bool': bool,
+                      'builtins.list': list, 'builtins.tuple': tuple, 'builtins.dict': dict, 'builtins.bytes': bytes,
+                      'builtins.complex': complex, 'builtins.set': set}
+                tys = pos[1][1] if pos[1][0] == 'tuple' else (pos[1],)
+                if is_c(pos[1]) or any(is_c(x) for x in tys):
+                    # the second argument is not a type: TypeError for every input
+                    return [(('call', 'builtins.TypeError', (C('isinstance() arg 2 must be a type'),), ()), st, 'raise')]
+                if all(x[0] == 'ref' for x in tys):
+                    known = [BT.get(x[1]) for x in tys]
+                    if any(k is not None and isinstance(pos[0][1], k) for k in known):
+                        return [(C(True), st, 'ok')]
+                    if all(k is not None or x[1] in ('numpy.ndarray', 'numpy.generic') or x[1].startswith('emd.')
+                           for k, x in zip(known, tys)):
+                        return [(C(False), st, 'ok')]
             if callee.dotted == 'builtins.dict' and all(k != '**' for k, _ in kws) \
                     and (not pos or (len(pos) == 1 and pos[0][0] == 'dict')):
                 # dict(a=1, b=2) / dict({...}, a=1): the literal with those entries
